@@ -61,6 +61,7 @@ type Contract struct {
 	EffectFree bool
 	Assumes   []string // free text assumptions recorded in evidence
 	ArgNames  []string // explicit parameter names for prelude contracts
+	Allocates bool     // the callee may allocate fresh slices/maps (fresh(result) is meaningful)
 	Opaque    []string // spec functions whose definitions are hidden (declared, not defined) in this function's VCs
 	used      bool
 }
@@ -406,6 +407,8 @@ func parseContractFile(path string, pkgPath string) ([]*Contract, error) {
 			cur.Overflow = true
 		case "uses":
 			cur.Uses = append(cur.Uses, strings.Fields(rest)...)
+		case "allocates":
+			cur.Allocates = true
 		case "opaque":
 			cur.Opaque = append(cur.Opaque, strings.Fields(rest)...)
 		case "args":
